@@ -146,7 +146,9 @@ PLANS['C17'] = {
 PLANS['C16'] = {
     'level': 'model_checking', 'tv_spec': 'TV_API',
     'run': api_runner({'quick': [('limits', 12, 12, 10), ('limitsbig', 4, 20, 2), ('limitsq', 6, 8, 4)],
-                       'thorough': [('limits', 150, 12, 16), ('limitsbig', 40, 30, 16), ('limitsq', 60, 10, 16)]}),
+                       'thorough': [('limits', 150, 12, 16), ('limitsbig', 40, 30, 16), ('limitsq', 60, 10, 16)]},
+                      mcs=[dict(name='SolveDriver', cfg='MC_SolveDriver.cfg', tla='MC_SolveDriver.tla', workers=8, timeout=600),
+                           dict(name='SolveDriverOldDesign', cfg='MC_SolveDriverOld.cfg', tla='MC_SolveDriver.tla', workers=4, timeout=600, expect_violation=True)]),
 }
 
 PLANS['C09'] = {
